@@ -32,9 +32,36 @@ Definition rule_affine (W : list (list K)) (n : nat) (m : list K) : list K :=
   map (fun i => ksum (map (fun j => nth i (nth j W []) zero *! nth j m zero) (seq 0 (length W))))
       (seq 0 n).
 
-(* (out(x)-out(ref))/(in(x)-in(ref)), the ordinary derivative where the inputs coincide *)
+(* (out(x)-out(ref))/(in(x)-in(ref)), the ordinary derivative where the inputs coincide.
+   "Coincide" is decided one decade BELOW the code's 1e-6 switch: |delta_in| < lo = 1e-7 (numerically
+   the test [small7]) demands the ordinary derivative - this includes inputs that differ only by
+   rounding noise (1e-19) and near-coincident inputs on the two sides of a kink (1e-8 .. 1e-12) -
+   and everything else demands the secant slope.  The band lo <= |delta_in| <= hi = 1e-5 around the
+   switch is excluded by the property's quantifier: the harness does not judge such cases.
+   [dg u] is the derivative at the EXAMPLE's input: _nonlinear returns grad_input[0] of the
+   concatenated batch, i.e. each half's own ordinary gradient, and deep_lift_shap differentiates
+   with respect to the example half only. *)
+Definition below_lo (d : K) : bool := small7 K d.
 Definition ratio (u : urec K) : K :=
-  if feqb K (ix u) (ir u) then dg u else (ox u -! or_ u) /! (ix u -! ir u).
+  if below_lo (ix u -! ir u) then dg u else (ox u -! or_ u) /! (ix u -! ir u).
+
+(* decidable scope of the C05 theorem for one trace: it is the forward pass of the pair, contains no
+   max-pool, and no unit sits between lo and the code's switch (|delta_in| < lo or >= 1e-6; the
+   harness excludes up to hi = 1e-5 because the implementation computes delta_in in floating point) *)
+Definition unit_ok5b (u : urec K) : bool :=
+  below_lo (ix u -! ir u) || negb (small6 K (ix u -! ir u)).
+Fixpoint chain5b (net : list (layer K)) (x r yx yr : list K) : bool :=
+  match net with
+  | [] => veqb K yx x && veqb K yr r
+  | Affine W b :: n =>
+      forallb (fun row => (length row =? length x)%nat) W && (in_dim K W =? length x)%nat &&
+      (length x =? length r)%nat && (length b =? length W)%nat &&
+      chain5b n (aff K W b x) (aff K W b r) yx yr
+  | Act us :: n =>
+      veqb K (map ix us) x && veqb K (map ir us) r && forallb unit_ok5b us &&
+      chain5b n (map ox us) (map or_ us) yx yr
+  | Pool _ _ _ :: _ => false
+  end.
 Definition u0 : urec K := U zero zero zero zero zero.
 Definition rule_act (us : list (urec K)) (m : list K) : list K :=
   map (fun j => nth j m zero *! ratio (nth j us u0)) (seq 0 (length us)).
@@ -127,7 +154,7 @@ Definition decode (A L : nat) (x : list Qc) : list nat :=
   map (fun p => hd O (filter (fun k => Qc_eq_bool (nth (k * L + p) x 0) 1) (seq 0 A))) (seq 0 L).
 Definition scope_pair05b (e : ecall) (p : pair) : bool :=
   let rr := run QcX (p_net p) (e_x e) (p_ref p) in
-  chainb QcX (fst rr) (e_x e) (p_ref p) (fst (snd rr)) (snd (snd rr)) &&
+  chain5b QcX (fst rr) (e_x e) (p_ref p) (fst (snd rr)) (snd (snd rr)) &&
   (length (fst (snd rr)) =? e_nout e)%nat.
 Definition scope05b (e : ecall) : bool :=
   list_eqb Qc_eq_bool (e_x e) (ohe QcX (e_A e) (e_L e) (decode (e_A e) (e_L e) (e_x e))) &&
